@@ -197,3 +197,38 @@ Definition ord_step (s : ostate) (e : ev) (x : ans) : option ostate :=
   | EWriteHeader n => if Nat.eqb n 201 then (if Nat.eqb (o_set s) 1 then Some s else None) else Some s
   | _ => Some s
   end.
+
+(* ---------------- C16 / C04: Add and Remove touch only owned target collections, with exactly the documented change ---------------- *)
+From Verif Require Import Pub.EffectSpec.
+Inductive eff_kind := KAdd (ids : list string) | KRemove (ids : list string).
+Record estate := { e_owns : option bool;   (* the answer to Owns for the current target *)
+                   e_got : option json }.  (* the target as Get returned it *)
+Definition e0 : estate := {| e_owns := None; e_got := None |}.
+
+Definition eff_expected (kind : eff_kind) (tp : json) : option json :=
+  match collection_prop tp with
+  | Ok cp => match kind with
+             | KAdd ids => Some (add_spec cp ids tp)
+             | KRemove ids => match remove_spec cp ids tp with Ok tp' => Some tp' | _ => None end
+             end
+  | _ => None
+  end.
+
+Definition eff_step (kind : eff_kind) (s : estate) (e : ev) (x : ans) : option estate :=
+  match e with
+  | EDb op args =>
+      if String.eqb op "Owns" then Some {| e_owns := match x with ABool b => Some b | _ => None end; e_got := None |}
+      else if String.eqb op "Get" then Some {| e_owns := e_owns s; e_got := match x with AJson j => Some j | _ => None end |}
+      else if String.eqb op "Update" then
+        match args, e_owns s, e_got s with
+        | [v], Some true, Some tp =>
+            match eff_expected kind tp with
+            | Some want => if jeqb v (canon want) then Some e0 else None
+            | None => None
+            end
+        | _, _, _ => None
+        end
+      else if String.eqb op "Create" || String.eqb op "Delete" || String.eqb op "SetOutbox" || String.eqb op "SetInbox" then None
+      else Some s
+  | _ => Some s
+  end.
